@@ -18,7 +18,7 @@ CHECKS = {
              text="Every event of a run (each epoch, each Anderson step, each record) carries the oracle objective; TLC checks monotonicity at every prefix = every budget, and that accepted extrapolations never increase the true objective nor the objective of the buffers the guard sees. The exact dyadic model MicroCD.tla is replayed into AndersonCD and cyclic GramCD (iterates must be equal float for float). Iterative reweighting: Reweight.tla proves Descent / Majorises for weights = d pen / d|w| and refutes them for signed derivatives; every surrogate solve of real IterativeReweightedL1 runs is observed and the true objective of successive iterates judged.", ref="6 C03"),
  "C04": dict(tech="CDCore invariant Feasible (TLC) + trace validation of feasibility/finiteness at every event and at return, budgets ending right after an extrapolation",
              text="Feasibility is evaluated by TLC at every observed state of every run (every stopping point), scenarios restricted by the spec to constraint penalties; finiteness of every returned number.", ref="6 C04"),
- "C17": dict(tech="CDCore invariants HistFaithful, CritOfReturned (TLC) + trace validation (hist_len, hist_value, hist_ret, hist_last, crit_of_returned, crit_value) for all nine solvers + estimator fits observed under the same monitor (n_iter_eq, n_iter_hist)",
+ "C17": dict(tech="CDCore invariants HistFaithful, CritOfReturned (TLC) + trace validation (hist_len, hist_value, hist_ret, hist_last, crit_of_returned, crit_value) for all nine solvers + estimator fits observed under the same monitor (n_iter_eq, n_iter_hist) + SolverObject.tla (history per solve; refuted variant: history kept on the object) bound by one solver object solving two problems in a row",
              text="The monitor counts record events, compares each recorded value with the oracle objective at that moment, the returned array with what was recorded, and the returned stopping value with the oracle violation of the returned point. Estimators are fitted with the solve inside fit() observed: n_iter_ must equal the number of outer iterations that solve performed, for exhausted budgets and for runs that converge early.", ref="6 C17"),
  "C06": dict(tech="exact lattice vectors judged by TLC against the documented losses written in TLA+ (Datafit.tla: derivatives derived by exact central differences / Huber piece table / closed rational forms on the ln2-lattice) + accessor and dense==CSC agreement facts judged by the RelTrace monitor",
              text="For every datafit and accessor TLC recomputes, with exact rational arithmetic, the value the documented loss demands at each lattice point and compares it with what the compiled code returned; accessor/storage agreement (incl. Cox with ties and censoring, Breslow and Efron) is judged on ranks.", ref="6 C06",
@@ -47,7 +47,7 @@ CHECKS = {
              note="Trusted: the dense-F-float64 run as reference (covered by C01), the keyword rule for 'names the representation'. Quick tier: stratified sample of the enumerated product; thorough: all of it."),
  "C02": dict(tech="relation catalogue Relations.tla[Family=C02] (TLC enumerates family x applicable skglm solver/estimator x storage x intercept exhaustively) replayed against independent references (scikit-learn, celer, an LP for the quantile loss, the scaled-Lasso fixed point for sqrt-Lasso); RelTrace facts agree / unique_same_w judged by TLC",
              text="Every applicable skglm solver and ready-made estimator of each convex family is run to tight tolerance and TLC judges its oracle objective / coefficients against the reference optimum.", ref="6 C02", note=REL_NOTE),
- "C11": dict(tech="TLA+ transcription of every estimator docstring as an objective descriptor (Estimator.tla, TLC -simulate over constructor arguments) + real fits; the oracle evaluates the first-order residual of the DOCUMENTED objective at (coef_, intercept_); RelTrace facts stationary, primal_image, dual_feasible, refused_as_documented, intercept_param",
+ "C11": dict(tech="TLA+ transcription of every estimator docstring as an objective descriptor (Estimator.tla, TLC -simulate over constructor arguments) + real fits; the oracle evaluates the first-order residual of the DOCUMENTED objective at (coef_, intercept_); RelTrace facts stationary, primal_image, dual_feasible, refused_as_documented, intercept_param; sizes small / wide, variants plain / high_snr / y_1d",
              text="Constructor-argument tuples and the objective the documentation promises come from the spec; TLC judges stationarity of the fitted attributes for that objective (dual feasibility and primal image for LinearSVC).", ref="6 C11",
              note="Trusted: transcription of the class docstrings in Estimator.tla; harness/oracle; fits at tol 1e-9 judged at 1e-6*scale."),
  "C12": dict(tech="TLA+ model of label encoding / one-vs-rest / renaming (Classifier.tla, exhaustive enumeration of label alphabets x class counts x renamings x estimators) + real fits incl. per-class binary fits and fits on renamed labels; RelTrace facts predict_is_argmax, decision_is_linear, proba_*, rename, ovr_row_equals_binary_fit; renamed fits also as warm re-fits of the same object, an imbalanced null-model regime, probabilities far from the data",
@@ -59,7 +59,7 @@ CHECKS = {
              text="Original and transformed problems (feature / group / within-group / task / sample permutations, stacking, scaling of y and alpha, rescaling a feature with its weight) are solved and TLC judges the mapped solutions.", ref="6 C15", note=REL_NOTE),
  "C16": dict(tech="relation catalogue Relations.tla[Family=C16] (11 penalty families x solvers/estimators x storage x intercept) with the critical strength computed independently (optimal unpenalised part first); RelTrace facts alpha_max_eq, null, null_unpenalised_optimal, nonnull",
              text="The critical alpha of the documented objective is computed by the oracle (intercept and zero-weight features optimised first); TLC judges the library's alpha_max against it, exact zeros and an optimal unpenalised part just above it, and a non-zero coefficient just below it.", ref="6 C16", note=REL_NOTE),
- "C18": dict(tech="TLA+ history model Purity.tla (TLC -simulate + permanent sentinel histories) executed one process per history, every fit compared with the same fit alone in a fresh process; RelTrace facts inputs_untouched, refit_ok, same_as_fresh, alive; solver-level twin (same solver object solves twice, every user array byte-compared, result against a fresh solver: resolve_same_as_fresh)",
+ "C18": dict(tech="TLA+ history model Purity.tla (TLC -simulate + permanent sentinel histories) executed one process per history, every fit compared with the same fit alone in a fresh process; RelTrace facts inputs_untouched, refit_ok, same_as_fresh, alive; solver-level twin (same solver object solves twice, every user array byte-compared, result against a fresh solver: resolve_same_as_fresh, refilled_same_as_fresh, solver_params_untouched, resolve_history_same_as_fresh) with its design model SolverObject.tla (2 design configs hold, 3 variants refuted: history on the object, parameter clamped on the object, cache keyed by identity)",
              text="Histories of fits, paths, set_params, clone / deepcopy / pickle of estimators and of bare datafit / penalty instances over estimators sharing compiled classes and data of different dtype / storage; TLC judges byte-identity of inputs, success of every fit and equality with fresh-process results.", ref="6 C18",
              note="Trusted: process isolation (one interpreter per history), tobytes() equality. Quick tier: 14 random histories + 10 sentinels (each history costs a full numba JIT)."),
 }
